@@ -29,7 +29,7 @@ Definition check_ecase (c : ecase) : list N :=
   let corr :=
       (if obs_match (ec_mode c) false model_res (ec_go c) then [] else [6%N]) ++
       (if aobs_match false model_ast (ec_go_ast c) then [] else [7%N]) in
-  if negb (wp (ec_tree c)) then 1%N :: corr
+  if negb (wp (ec_tree c) && npos (ec_tree c)) then 1%N :: corr
   else
     let want_ast := AOk (Grammar.compile (ec_tree c)) in
     let want_res := spec_obs (ec_tree c) (ec_doc c) in
@@ -104,7 +104,7 @@ Definition eMSHash := @EMSHash FloatNum.
 Definition eCall := @ECall FloatNum.
 Definition eNot := @ENot FloatNum.
 Definition eIndex := @EIndex FloatNum.
-Definition eSlice := @ESlice FloatNum.
+Definition eSlice l a b (c : option Z) r := @ESlice FloatNum l a b (option_map Some c) r.
 Definition eListProj := @EListProj FloatNum.
 Definition eFlatten := @EFlatten FloatNum.
 Definition eFilter := @EFilter FloatNum.
